@@ -121,6 +121,9 @@ class Package:
         self.imports = {}       # module -> {local name: ('mod', modname) | ('obj', modname, name)}
         self.unknown_decorators = set()
         self.type_aliases = {}  # module-level `X = Union[...]` style aliases
+        self.star_imports = {}  # module -> [modules imported with *]
+        self.conservative = {}  # construct -> [where]: things translated conservatively (reported in the evidence)
+        self.index_errors = []
         for root, dirs, files in os.walk(src):
             dirs.sort()
             for fn in sorted(files):
@@ -129,13 +132,39 @@ class Package:
                     rel = os.path.relpath(path, src)[:-3].replace(os.sep, '.')
                     mod = 'peptacular.' + rel if rel != '__init__' else 'peptacular'
                     mod = mod.replace('.__init__', '')
-                    self.modules[mod] = ast.parse(open(path).read())
+                    try:
+                        self.modules[mod] = ast.parse(open(path).read())
+                    except SyntaxError as e:
+                        self.modules[mod] = ast.parse('')
+                        self.index_errors = getattr(self, 'index_errors', []) + [f'{mod}: SyntaxError {e}']
         for mod, tree in self.modules.items():
-            self._index(mod, tree)
+            try:
+                self._index(mod, tree)
+            except Exception as e:  # noqa - a module that cannot be indexed leaves its functions unresolved (conservative calls)
+                self.index_errors.append(f'{mod}: {type(e).__name__}: {e}')
+        # star imports: every top-level function / class / table of the imported package module becomes visible
+        for mod, srcs in self.star_imports.items():
+            for m in srcs:
+                for q, fn in list(self.funcs.items()):
+                    if fn.module == m and fn.cls is None:
+                        self.imports[mod].setdefault(fn.node.name, ('obj', m, fn.node.name))
+                for (gm, gn), g in list(self.globals.items()):
+                    if gm == m:
+                        self.imports[mod].setdefault(gn, ('obj', m, gn))
+                for cn, ci in self.classes.items():
+                    if ci['module'] == m:
+                        self.imports[mod].setdefault(cn, ('obj', m, cn))
 
-    def _index(self, mod, tree):
+    def _index(self, mod, tree, body=None):
         imp = self.imports.setdefault(mod, {})
-        for node in tree.body:
+        for node in (tree.body if body is None else body):
+            if isinstance(node, (ast.If, ast.Try, ast.With)):
+                # definitions guarded at module level (TYPE_CHECKING, optional imports): indexed as if unconditional
+                for blk in (getattr(node, 'body', []), getattr(node, 'orelse', []), getattr(node, 'finalbody', [])):
+                    self._index(mod, tree, blk)
+                for h in getattr(node, 'handlers', []):
+                    self._index(mod, tree, h.body)
+                continue
             if isinstance(node, ast.Import):
                 for a in node.names:
                     imp[(a.asname or a.name).split('.')[0]] = ('mod', a.name)
@@ -146,14 +175,17 @@ class Package:
                     base = base[:len(base) - node.level]
                     m = '.'.join(base + ([m] if m else []))
                 for a in node.names:
-                    imp[a.asname or a.name] = ('obj', m, a.name)
+                    if a.name == '*':
+                        self.star_imports.setdefault(mod, []).append(m)
+                    else:
+                        imp[a.asname or a.name] = ('obj', m, a.name)
             elif isinstance(node, (ast.FunctionDef, ast.AsyncFunctionDef)):
                 self._add_fn(mod, None, node)
             elif isinstance(node, ast.ClassDef):
                 info = self.classes.setdefault(node.name, {'module': mod, 'methods': {}, 'props': {}, 'bases': [ast.unparse(b) for b in node.bases],
                                                            'dataclass': any('dataclass' in ast.unparse(d) for d in node.decorator_list)})
                 for sub in node.body:
-                    if isinstance(sub, ast.FunctionDef):
+                    if isinstance(sub, (ast.FunctionDef, ast.AsyncFunctionDef)):
                         self._add_fn(mod, node.name, sub)
             elif isinstance(node, (ast.Assign, ast.AnnAssign)):
                 targets = node.targets if isinstance(node, ast.Assign) else [node.target]
@@ -210,6 +242,11 @@ class Package:
                 ci['methods'][name] = qual
                 self.methods.setdefault(name, []).append(qual)
         # nested defs (decorator wrappers) are not indexed: treated through the transparent-decorator rule
+
+    def conservative_note(self, what, where):
+        self.conservative.setdefault(what, [])
+        if where not in self.conservative[what]:
+            self.conservative[what].append(where)
 
     def memo_global(self, qual):
         """the process-wide object standing for the cache of an lru_cache / cache decorated function"""
@@ -379,6 +416,7 @@ class FnTranslation:
         self.globals_decl = set()
         self.local_funcs = {}    # name -> (param var ids, result var)
         self.recvars = set()
+        self.local_classes = set()   # classes defined inside this function: C(args) packs the arguments and runs C.__init__
         self.in_local = False    # inside a nested def / lambda body (its returns are not the function's)
         for p in fn.allparams:
             self.cur[p] = self.newvar(p, raw=True)
@@ -492,14 +530,35 @@ class FnTranslation:
         for i, p in enumerate(self.fn.allparams):
             self.emit('param', i, i)
         memo = [d for d in self.fn.decorators if d.split('(')[0].split('.')[-1] in ('lru_cache', 'cache')]
-        if memo and type_of_annotation(self.fn.returns, self.pkg) != 'scalar':
+        unknown_dec = [d for d in self.fn.decorators if d.split('(')[0].split('.')[-1] not in TRANSPARENT_DECORATORS]
+        if unknown_dec:
+            # a decorator the translator does not know may keep state and may touch the arguments: the function is treated as
+            # writing every parameter and as handing out a process-wide object
+            self.pkg.conservative_note('unknown decorator ' + unknown_dec[0].split('(')[0], self.fn.qual)
+            for i, _ in enumerate(self.fn.allparams):
+                self.emit('write', i)
+                d = self.newvar('d')
+                self.emit('elem', d, i)
+                self.emit('write', d)
+        if (memo or unknown_dec) and type_of_annotation(self.fn.returns, self.pkg) != 'scalar':
             # a memoised function hands out the object stored in its cache: the result is a process-wide object
             # (a result annotated as number / string is immutable: benign memo, nothing shared)
             g = self.pkg.memo_global(self.fn.qual)
             m = self.newvar('memo!')
             self.emit('global', m, g)
             self.emit('alias', self.ret, (m,))
-        self.block(self.fn.node.body)
+        try:
+            self.block(self.fn.node.body)
+        except Exception as e:  # noqa - never abort: the whole function becomes "writes everything it was given, returns anything"
+            self.pkg.conservative_note(f'translator exception {type(e).__name__}', self.fn.qual)
+            allv = list(range(self.nparams))
+            for v in allv:
+                self.emit('write', v)
+                d = self.newvar('d')
+                self.emit('elem', d, v)
+                self.emit('write', d)
+            self.emit('alias', self.ret, tuple(allv))
+            self.emit('gwrite', RNG)
         return {'stmts': self.dedup(self.stmts), 'nparams': self.nparams, 'ret': self.ret, 'names': self.names,
                 'qual': self.fn.qual, 'inplace': self.inplace, 'params': list(self.fn.allparams)}
 
@@ -512,6 +571,28 @@ class FnTranslation:
                 seen.add(k)
                 out.append(s)
         return out
+
+    # ---- conservative fallback for constructs the translator has no rule for
+    def conservative_node(self, node, what):
+        """every name the construct mentions may be written (itself and what it holds); the value may be any of them"""
+        self.pkg.conservative_note(what, self.fn.qual)
+        vs = []
+        for sub in ast.walk(node):
+            if isinstance(sub, ast.Name) and isinstance(sub.ctx, ast.Load):
+                v = self.lookup(sub.id)
+                if v is not None and v not in vs:
+                    vs.append(v)
+        for v in vs:
+            self.emit('write', v)
+            d = self.newvar('d')
+            self.emit('elem', d, v)
+            self.emit('write', d)
+        t = self.newvar('cons')
+        self.emit('pack', t, tuple(vs))
+        for sub in ast.walk(node):
+            if isinstance(sub, ast.Name) and isinstance(sub.ctx, (ast.Store, ast.Del)):
+                self.bind(sub.id, t, 'unknown')
+        return t
 
     # ---- statements
     def fold(self, test):
@@ -673,6 +754,11 @@ class FnTranslation:
         if isinstance(st, (ast.FunctionDef, ast.ClassDef, ast.Import, ast.ImportFrom, ast.Pass, ast.Break, ast.Continue, ast.Nonlocal)):
             if isinstance(st, ast.FunctionDef):
                 self.local_function(st.name, st.args, st.body)
+            elif isinstance(st, ast.ClassDef):
+                for sub in st.body:
+                    if isinstance(sub, (ast.FunctionDef, ast.AsyncFunctionDef)):
+                        self.local_function(st.name + '.' + sub.name, sub.args, sub.body)
+                self.local_classes.add(st.name)
             return False
         if isinstance(st, ast.Global):
             for n in st.names:
@@ -682,11 +768,37 @@ class FnTranslation:
             self.expr(st.test)
             return False
         if isinstance(st, ast.Match):
-            self.expr(st.subject)
+            subj = self.expr(st.subject)
+            pre = dict(self.cur)
+            states, terms = [], []
             for c in st.cases:
-                self.block(c.body)
+                self.cur = dict(pre)
+                # names captured by the pattern may be the subject or anything inside it
+                for sub in ast.walk(c.pattern):
+                    nm = getattr(sub, 'name', None) if isinstance(sub, (ast.MatchAs, ast.MatchStar)) else \
+                        (getattr(sub, 'rest', None) if isinstance(sub, ast.MatchMapping) else None)
+                    if nm:
+                        if subj is not None:
+                            e = self.newvar('m')
+                            self.emit('alias', e, (subj,))
+                            self.emit('elem', e, subj)
+                            self.bind(nm, e, 'unknown')
+                        else:
+                            self.bind(nm, None, 'unknown')
+                    if isinstance(sub, ast.MatchValue):
+                        self.expr(sub.value)
+                if c.guard is not None:
+                    self.expr(c.guard)
+                terms.append(self.block(c.body))
+                states.append(self.cur)
+            live = [x for x, t in zip(states, terms) if not t] + [pre]
+            self.cur = self.merge(pre, live)
             return False
-        raise NotImplementedError(ast.dump(st)[:100])
+        if isinstance(st, (ast.AsyncFunctionDef,)):
+            self.local_function(st.name, st.args, st.body)
+            return False
+        self.conservative_node(st, 'statement ' + type(st).__name__)
+        return False
 
     def narrow(self, test):
         """`if isinstance(x, Mod):` - inside the branch x is a record"""
@@ -770,7 +882,7 @@ class FnTranslation:
             return
         if isinstance(target, ast.Starred):
             return self.assign(target.value, v, ty, value_node)
-        raise NotImplementedError(ast.dump(target)[:100])
+        self.conservative_node(target, 'assignment target ' + type(target).__name__)
 
     # ---- names
     def lookup(self, name, define=False):
@@ -804,8 +916,12 @@ class FnTranslation:
     def local_function(self, name, args, body):
         """nested def / lambda bound to a name: parameters are weak variables, calls alias the arguments into them"""
         params = []
+        shared = sorted(n for n in self.assigned_names(body) if n in self.cur and self.cur[n] is not None)
+        if shared:
+            self.weaken(shared)        # closure / nonlocal writes: one variable for the rest of the enclosing function
         saved_cur, saved_ret = dict(self.cur), self.ret
-        for a in args.args:
+        for a in list(getattr(args, 'posonlyargs', [])) + list(args.args) + list(args.kwonlyargs) + \
+                ([args.vararg] if args.vararg else []) + ([args.kwarg] if args.kwarg else []):
             v = self.newvar(name + '.' + a.arg)
             params.append(v)
             self.cur[a.arg] = v
@@ -813,11 +929,13 @@ class FnTranslation:
         self.ret = res
         self.local_funcs[name] = (params, res)
         saved_local, self.in_local = self.in_local, True
-        self.block(body)
-        self.in_local = saved_local
-        self.ret = saved_ret
-        self.cur = saved_cur
-        self.cur[name] = None
+        try:
+            self.block(body)
+        finally:
+            self.in_local = saved_local
+            self.ret = saved_ret
+            self.cur = saved_cur
+            self.cur[name] = None
 
     # ---- types of expressions
     def elemtype(self, t):
@@ -1119,7 +1237,8 @@ class FnTranslation:
             return t
         if isinstance(e, ast.Lambda):
             saved = dict(self.cur)
-            for a in e.args.args:
+            for a in list(e.args.args) + list(e.args.kwonlyargs) + ([e.args.vararg] if e.args.vararg else []) + \
+                    ([e.args.kwarg] if e.args.kwarg else []):
                 self.cur[a.arg] = self.newvar('lam.' + a.arg)
             self.expr(e.body)
             self.cur = saved
@@ -1142,7 +1261,7 @@ class FnTranslation:
             return None
         if isinstance(e, ast.Await):
             return self.expr(e.value)
-        raise NotImplementedError(ast.dump(e)[:100])
+        return self.conservative_node(e, 'expression ' + type(e).__name__)
 
     # ---- calls
     def argvals(self, e):
@@ -1255,6 +1374,7 @@ class FnTranslation:
 
     def conservative(self, what, recv, pos, kw):
         self.tr.log['unresolved_calls'].setdefault(what, set()).add(self.fn.qual)
+        self.pkg.conservative_note('unresolved call: ' + what, self.fn.qual)
         vals = ([recv] if recv is not None else []) + [v for _, v in pos] + list(kw.values())
         vals = [v for v in vals if v is not None]
         for v in vals:
@@ -1272,6 +1392,16 @@ class FnTranslation:
         # ------------------------------------------------ plain names
         if isinstance(f, ast.Name):
             name = f.id
+            if name in self.local_classes:
+                pos, kw = self.argvals(e)
+                t = self.newvar('obj')
+                self.emit('pack', t, tuple(v for _, v in pos if v is not None) + tuple(v for v in kw.values() if v is not None))
+                init = self.local_funcs.get(name + '.__init__')
+                if init:
+                    for pv, v in zip(init[0], [t] + [v for _, v in pos]):
+                        if v is not None:
+                            self.emit('alias', pv, (v,))
+                return t
             if name in self.local_funcs:
                 pos, kw = self.argvals(e)
                 params, res = self.local_funcs[name]
@@ -1414,6 +1544,22 @@ class FnTranslation:
             t = self.newvar('j')
             self.emit('alias', t, tuple(res))
             return t
+        # ------------------------------------------------ an immediately applied lambda: parameters are the arguments
+        if isinstance(f, ast.Lambda):
+            pos, kw = self.argvals(e)
+            saved = dict(self.cur)
+            allv = [v for _, v in pos if v is not None] + [v for v in kw.values() if v is not None]
+            for a, (_, v) in zip(f.args.args, pos):
+                self.cur[a.arg] = v
+            for a in f.args.args[len(pos):] + list(f.args.kwonlyargs):
+                self.cur[a.arg] = kw.get(a.arg)
+            for a in ([f.args.vararg] if f.args.vararg else []) + ([f.args.kwarg] if f.args.kwarg else []):
+                t = self.newvar('va')
+                self.emit('pack', t, tuple(allv))
+                self.cur[a.arg] = t
+            r = self.expr(f.body)
+            self.cur = saved
+            return r
         # ------------------------------------------------ anything else (call of a call result, subscript ...)
         fv = self.expr(f)
         pos, kw = self.argvals(e)
@@ -1737,8 +1883,12 @@ def api_members():
         elif name.startswith('Fragmenter.'):
             qual = f'peptacular.fragmentation.{name}'
         else:
-            o = getattr(pt, name)
-            qual = f'{o.__module__}.{o.__qualname__}'
+            o = getattr(pt, name, None)
+            try:
+                o = inspect.unwrap(o)
+            except Exception:
+                pass
+            qual = f"{getattr(o, '__module__', '?')}.{getattr(o, '__qualname__', name)}"
         out.append((name, params, qual))
     out.append(('Fragmenter', [('sequence', 'A')], 'peptacular.fragmentation.Fragmenter.__init__'))
     return out
@@ -1975,6 +2125,7 @@ def generate():
             'unresolved_calls': {k: sorted(v)[:6] for k, v in sorted(tr.log['unresolved_calls'].items())},
             'unknown_receiver_methods': {k: sorted(v)[:6] for k, v in sorted(tr.log['unknown_receiver_methods'].items())},
             'unknown_decorators': sorted(pkg.unknown_decorators), 'max_fuel': max(fuel), 'entries': entries,
+            'conservative_constructs': {k: v[:8] for k, v in sorted(pkg.conservative.items())}, 'index_errors': pkg.index_errors,
             'summaries': S, 'progs': progs, 'gnames': pkg.gnames, 'tables': tables, 'files': files, 'verdicts': verdicts}
     return text, info
 
